@@ -19,6 +19,7 @@ class Op(object):
         self.whole = False
         self.ptr_type = None
         self.mem_bits = None
+        self.lit = None
 
 
 def _counts(ty):
@@ -29,7 +30,7 @@ OPS = []
 
 
 def op(*a, **k):
-    extra = dict((x, k.pop(x)) for x in ('whole', 'ptr_type', 'mem_bits') if x in k)
+    extra = dict((x, k.pop(x)) for x in ('whole', 'ptr_type', 'mem_bits', 'lit') if x in k)
     o = Op(*a, **k)
     for x, v in extra.items():
         setattr(o, x, v)
@@ -205,5 +206,30 @@ op('bget', 'mem', C04, ALL, 'b', 's', 'a.get({i})', WS.bget_spec, whole=True,
    variants=lambda ty, cfg: [{'i': k} for k in sorted(set([0, 1, _nl(ty, cfg) // 2, _nl(ty, cfg) - 1]))])
 op('gather', 'mem', C04, [t for t in ALL if t.bits >= 32], 'px', 'b', 'B_<{T}>::gather(p, x)', WS.gather_spec, whole=True)
 op('scatter', 'mem', C04, [t for t in ALL if t.bits >= 32], 'bPx', 'void', 'a.scatter(o, x)', WS.scatter_spec, whole=True)
+
+# ---- C19 (IR part: constant -> run-time conversion, constant-taking APIs vs their run-time forms) ---------------
+C19 = ['C19']
+
+
+def _lit(ty, k, e):
+    if k == 'Bv':
+        return 'true' if e else 'false'
+    if k == 'V' and isinstance(e, int):
+        if ty.bits == 64:
+            return ('%dull' % e) if e >= 0 else ('(-%dll)' % (-e))
+        return ('%du' % e) if (e >= 0 and not ty.signed) else str(e)
+    return str(e)
+
+
+op('bc_as_batch', 'const', C19, INTS, '', 'b', 'B_<{T}>(xsimd::batch_constant<{T}, A, {V}>{{}})', WS.const_batch_spec, whole=True, lit=_lit,
+   variants=lambda ty, cfg, tier: [{'V': tuple(v)} for v in MK.value_packs(ty, _nl(ty, cfg), tier, 'bc')])
+op('bc_as_batch_m', 'const', C19, INTS, '', 'b', 'xsimd::batch_constant<{T}, A, {V}>{{}}.as_batch()', WS.const_batch_spec, whole=True, lit=_lit,
+   variants=lambda ty, cfg, tier: [{'V': tuple(v)} for v in MK.value_packs(ty, _nl(ty, cfg), 'quick', 'bcm')[:6]])
+op('bbc_as_batch_bool', 'const', C19, ALL, '', 'm', 'M_<{T}>(xsimd::batch_bool_constant<{T}, A, {Bv}>{{}})', WS.const_bool_spec, whole=True, lit=_lit,
+   variants=lambda ty, cfg, tier: [{'Bv': tuple(v)} for v in MK.bool_packs(_nl(ty, cfg), tier, 'bbc')])
+op('select_const', 'const', C19, ALL, 'bb', 'b', 'xsimd::select(xsimd::batch_bool_constant<{T}, A, {Bv}>{{}}, a, b)', WS.select_const_spec, whole=True, lit=_lit,
+   variants=lambda ty, cfg, tier: [{'Bv': tuple(v)} for v in MK.bool_packs(_nl(ty, cfg), tier, 'selc')])
+op('swizzle_dyn', 'const', C19, ALL, 'b', 'b', 'xsimd::swizzle(a, xsimd::batch_constant<{U}, A, {V}>{{}}.as_batch())', WS.swizzle_spec, whole=True,
+   variants=lambda ty, cfg, tier: [{'V': tuple(v)} for v in MK.swizzle_masks(_nl(ty, cfg), 'quick', 'swd')[:40 if tier == 'quick' else 400]])
 
 BY_NAME = dict((o.name, o) for o in OPS)
